@@ -210,8 +210,8 @@ theorem tot_setEA {α : Type} (f : Regs → Regs) (hf : ∀ c, (f c).EA < 167772
   obtain ⟨a, s', e, _, w⟩ := h { s with r := f s.r } (fun _ => hf s.r)
   exact ⟨a, s', by rw [bind_eq]; exact e, (by intro h; cases h), w⟩
 
-theorem tot_step (v : Variant) : Tot false (step v) := by
-  unfold step
+theorem tot_stepWith (sem : U8 → RowSem) (adj : U8 → CycAdj) : Tot false (stepWith sem adj) := by
+  unfold stepWith
   refine tot_bind _ _ ?_ (fun _ => ?_)
   · exact tot_modify _ (fun _ => rfl)
   refine tot_bind _ _ tot_get (fun c => ?_)
@@ -222,7 +222,9 @@ theorem tot_step (v : Variant) : Tot false (step v) := by
   refine tot_bind _ _ (tot_addressing _) (fun r => ?_)
   apply tot_setEA
   · intro c; exact mod_lt _
-  refine tot_bind _ _ (tot_runProc _) (fun _ => ?_)
+  refine tot_bind _ _ (tot_runP _) (fun _ => ?_)
   exact tot_modify _ (fun _ => rfl)
+
+theorem tot_step (v : Variant) : Tot false (step v) := tot_stepWith _ _
 
 end Cpu
